@@ -48,15 +48,15 @@ func String(v any, defaults ...string) (s string) {
 			case int32:
 				s = strconv.FormatInt(int64(tv), 10)
 			case uint:
-				s = strconv.FormatInt(int64(tv), 10)
+				s = strconv.FormatUint(uint64(tv), 10)
 			case uint8:
-				s = strconv.FormatInt(int64(tv), 10)
+				s = strconv.FormatUint(uint64(tv), 10)
 			case uint16:
-				s = strconv.FormatInt(int64(tv), 10)
+				s = strconv.FormatUint(uint64(tv), 10)
 			case uint32:
-				s = strconv.FormatInt(int64(tv), 10)
+				s = strconv.FormatUint(uint64(tv), 10)
 			case uint64:
-				s = strconv.FormatInt(int64(tv), 10)
+				s = strconv.FormatUint(tv, 10)
 			case float32:
 				s = strconv.FormatFloat(float64(tv), 'g', -1, 32)
 			case float64:
